@@ -57,9 +57,25 @@ def indexed_before(body, target, name="t"):
     return found and bool(seen)
 
 
+def own_order(k, org):
+    """The `org_k` a kernel call works with: `None` means the call's own order k (`org_k.unwrap_or(*k)`), `Some(v)` / an already resolved number is v."""
+    if isinstance(org, Sym) and org.tag[:2] == ("ctor", "None"):
+        return k
+    if isinstance(org, Sym) and org.tag[:2] == ("ctor", "Some") and len(org.tag) == 3:
+        return org.tag[2]
+    return org
+
+
 def hooks(facts=None):
-    h = {SP + "bsplev_single_f64": lambda ev, vals, e: B(vals[1], vals[2], vals[4]),
+    h = {SP + "bsplev_single_f64": lambda ev, vals, e: B(vals[1], vals[2], own_order(vals[2], vals[4])),
          SP + "bspldnev_single_f64": lambda ev, vals, e: Dm(vals[1], vals[2], vals[4], vals[5])}
+
+    def rec(ev, name, vals):
+        # a private worker of the value kernel (same parameter order, the order already resolved) calling itself is the kernel's recursive call
+        if name.startswith(SP) and len(vals) == 5 and name != SP + "bspldnev_single_f64":
+            return B(vals[1], vals[2], own_order(vals[2], vals[4]))
+        return None
+    h["@rec"] = rec
     if facts is not None:
         def last(ev, vals, e):
             # `t.last()` where t[..] has already been indexed unconditionally: the slice is not empty, so this is Some(&t[len - 1])
@@ -120,8 +136,8 @@ def _run(ck, facts, tier):
         ind = Sym("and", *sorted([vkey(cel.cmp_sym("Le", T(I), X)), vkey(cel.cmp_sym("Lt", X, T(I + ONE)))], key=repr))
         g1 = cel.cmp_sym("Ne", T(I), T(I + K - ONE))
         g2 = cel.cmp_sym("Ne", T(I + ONE), T(I + K))
-        left = (X - T(I)) * (T(I + K - ONE) - T(I)).inv() * B(I, K - ONE, NONE)
-        rght = (T(I + K) - X) * (T(I + K) - T(I + ONE)).inv() * B(I + ONE, K - ONE, NONE)
+        left = (X - T(I)) * (T(I + K - ONE) - T(I)).inv() * B(I, K - ONE, own_order(K - ONE, NONE))
+        rght = (T(I + K) - X) * (T(I + K) - T(I + ONE)).inv() * B(I + ONE, K - ONE, own_order(K - ONE, NONE))
         n = paths.norm_cond
         pre = [n(("not", ("if", vkey(out)))), n(("not", ("if", vkey(right))))]
         want = {(frozenset([n(("if", vkey(out)))]), Poly.const(0).key()),
@@ -162,8 +178,8 @@ def _run(ck, facts, tier):
         div1, div2 = T(I + K - ONE) - T(I), T(I + K) - T(I + ONE)
         g1, g2 = cel.cmp_sym("Ne", div1, Poly.const(0)), cel.cmp_sym("Ne", div2, Poly.const(0))
         pre = [n(("not", ("if", vkey(m0)))), n(("not", ("if", vkey(zero))))]
-        want = {(frozenset([n(("if", vkey(m0)))]), B(I, K, NONE).key()), (frozenset([pre[0], n(("if", vkey(zero)))]), Poly.const(0).key())}
-        for first, X1, X2 in ((True, B(I, K - ONE, SOME), B(I + ONE, K - ONE, SOME)), (False, Dm(I, K - ONE, M - ONE, SOME), Dm(I + ONE, K - ONE, M - ONE, SOME))):
+        want = {(frozenset([n(("if", vkey(m0)))]), B(I, K, own_order(K, NONE)).key()), (frozenset([pre[0], n(("if", vkey(zero)))]), Poly.const(0).key())}
+        for first, X1, X2 in ((True, B(I, K - ONE, own_order(K - ONE, SOME)), B(I + ONE, K - ONE, own_order(K - ONE, SOME))), (False, Dm(I, K - ONE, M - ONE, SOME), Dm(I + ONE, K - ONE, M - ONE, SOME))):
             for a in (True, False):
                 for b in (True, False):
                     conds = pre + [n(("if", vkey(m1))) if first else n(("not", ("if", vkey(m1)))), n(("if", vkey(g1))) if a else n(("not", ("if", vkey(g1)))),
